@@ -378,7 +378,12 @@ def gen_c18(env, tier):
     n_cases = 7000 if tier == "quick" else 80000
     for _ in range(n_cases):
         func = rnd.choice(cb.STATS)
-        case = stat_case(env, func)
+        if rnd.random() < 0.1 and func not in ("wquantile",):
+            # a dimension with an extra axis: the statistic is filled once per slice by the same function object
+            nd = rnd.choice([1, 2])
+            case = stat_case(env, func, nd=nd, extra=[(2,)] + [()] * (nd - 1), maxrows=6)
+        else:
+            case = stat_case(env, func)
         if func == "wquantile":
             run_wquantile(env, case)
         else:
@@ -557,6 +562,8 @@ def gen_reuse(env, tier, prop):
 
 def gen_c03_all(env, tier):
     gen_c03(env, tier)
+    gen_live(env, tier, "C03")
+    gen_live(env, tier, "C03", with_axes=True)
     gen_reuse(env, tier, "C03")
     gen_twin_dims(env, tier, "C03")
     gen_residue(env, tier, "C03")
@@ -662,10 +669,52 @@ def gen_c14_big(env, tier):
             record_walk(env, dims, [0] * len(dims))
 
 
+def gen_c14_threads(env, tier):
+    """several cubes walked at the same time from four threads (the intersection kernel releases the GIL, so the walks
+    overlap for real): every walk still delivers its own combinations with its own rows"""
+    import sys
+    from multiprocessing.pool import ThreadPool
+    rnd = env.rnd
+    n = 4097
+    jobs = []
+    for q in range(8 if tier == "quick" else 40):
+        a = np.ones(n, dtype=np.int64)
+        a[rnd.sample(range(n), 40)] = 0
+        b = np.zeros(n, dtype=np.int64)
+        b[rnd.sample(range(n), 600)] = 1
+        b[rnd.sample(range(n), 300)] = 2
+        dims = [a, b] if q % 2 else [b, a]
+        idims = [canonical(env.iindex, d, 0) for d in dims]
+        jobs.append((dims, env.ccube(idims)))
+
+    def walk(job):
+        out = []
+        try:
+            job[1].walk(lambda c, r: out.append({"c": [int(x) for x in c], "rows": [int(x) + 1 for x in np.asarray(r).tolist()]}))
+            return out, None
+        except Exception as e:  # noqa
+            return out, "%s: %s" % (type(e).__name__, e)
+    old = sys.getswitchinterval()
+    sys.setswitchinterval(1e-6)
+    try:
+        with ThreadPool(4) as pool:
+            results = pool.map(walk, jobs * 2)
+    finally:
+        sys.setswitchinterval(old)
+    for (dims, _cube), (delivered, exc) in zip(jobs * 2, results):
+        env.rec.tid += 1
+        ev = {"tid": env.rec.tid, "prop": "C14", "kind": "walk", "n": n, "dims": [d.tolist() for d in dims],
+              "commons": [0] * len(dims), "delivered": delivered, "exc": exc is not None}
+        env.rec.events.append(ev)
+        env.rec.meta[ev["tid"]] = {"cube": "ccube.walk", "dims": "(4097 rows)", "commons": [0] * len(dims), "exc": exc,
+                                   "note": "walked concurrently with seven other cubes from four threads"}
+
+
 def gen_c14_all(env, tier):
     gen_c14(env, tier)
     gen_c14_long(env, tier)
     gen_c14_big(env, tier)
+    gen_c14_threads(env, tier)
 
 
 def gen_c04_all(env, tier):
